@@ -1583,7 +1583,9 @@ func (g Gateway) AreKeysExist(_ context.Context, in *hydrapb.AreKeysExistRequest
 	defer handlePanic()
 
 	// validate the swamp name
-	swampName, err := checkSwampName(g.ZeusInterface, in.GetIslandID(), in.SwampName, true)
+	// only the name is validated here: a swamp that does not exist is answered below with every key = false
+	// (with checkExist=true that documented answer was unreachable and the caller got FailedPrecondition)
+	swampName, err := checkSwampName(g.ZeusInterface, in.GetIslandID(), in.SwampName, false)
 	if err != nil {
 		return nil, err
 	}
